@@ -91,6 +91,8 @@ def _alarm(signum, frame):
 
 
 def project(qf):
+    if not all(hasattr(qf, a) for a in ("_is_occupied", "_is_continuation", "_is_shifted", "_filter")):
+        return (qf.quotient, qf.elements_added, [], [], [], sorted(qf.get_hashes()))     # refactored internals: public projection only
     n = qf.num_elements
     if n > 1 << 12:
         return (qf.quotient, qf.elements_added, bytes(qf._is_occupied.bitarray), bytes(qf._is_continuation.bitarray), bytes(qf._is_shifted.bitarray), bytes(qf._filter))
